@@ -12,6 +12,15 @@ MODFILE=go.mod
 if [ "$REPO" != "/repo" ]; then
   sed "s#=> /repo#=> $REPO#" go.mod > "$OUT/alt.mod"; cp go.sum "$OUT/alt.sum"; MODFILE="$OUT/alt.mod"
 fi
+PKG="$TARGET"
+rm -f "$OUT/extra_overlay.json"
+if [ "${TARGET%-seam}" != "$TARGET" ]; then
+  # seam build (C01): map ranges, time.Now and uuid.NewUUID of the application are rewritten to go through
+  # utils/verifseam; the rewritten files exist only in the overlay
+  PKG="${TARGET%-seam}"
+  (cd tools/genseam && go build -o "$OUT/genseam" .)
+  "$OUT/genseam" "$REPO" "$OUT" x >"$OUT/genseam.log"
+fi
 go build -modfile="$MODFILE" -o "$OUT/genprep" ./cmd/genprep
 "$OUT/genprep" "$REPO" "$OUT"
-go build -modfile="$MODFILE" -tags verif -overlay "$OUT/overlay.json" -ldflags=-checklinkname=0 -o "${VERIF_BIN:-bin/$TARGET}" ./cmd/$TARGET
+go build -modfile="$MODFILE" -tags verif -overlay "$OUT/overlay.json" -ldflags=-checklinkname=0 -o "${VERIF_BIN:-bin/$TARGET}" ./cmd/$PKG
